@@ -467,11 +467,15 @@ def evaluate__avg(self: XPathFunction, context: ta.ContextType = None) \
             if isinstance(context, XPathSchemaContext):
                 return []
             raise self.error('FORG0006', err)
+        except OverflowError as err:
+            raise self.error('FOAR0002', err) from None
     else:
         try:
             return sum(
                 float(x) if isinstance(x, Decimal) else x for x in values  # type: ignore[misc]
             ) / len(values)
+        except OverflowError as err:
+            raise self.error('FOAR0002', err) from None
         except TypeError as err:
             if isinstance(context, XPathSchemaContext):
                 return []
@@ -548,6 +552,8 @@ def evaluate__max_min_functions(self: XPathFunction, context: ta.ContextType = N
             if isinstance(context, XPathSchemaContext):
                 return []
             raise self.error('FORG0006', err)
+        except OverflowError as err:
+            raise self.error('FOAR0002', err) from None
 
 
 ###
@@ -598,8 +604,7 @@ def select__distinct_values(self: XPathFunction, context: ta.ContextType = None)
                     if not nan:
                         yield value
                         nan = True
-                elif all(not math.isclose(value, x, rel_tol=1E-18, abs_tol=0)
-                         for x in results if isinstance(x, (int, Decimal, float))):
+                elif all(value != x for x in results if isinstance(x, (int, Decimal, float))):
                     yield value
                     results.append(value)
 
@@ -686,7 +691,9 @@ def select__subsequence(self: XPathFunction, context: ta.ContextType = None) \
         context = self.context
 
     starting_loc = self.get_argument(context, 1, required=True, cls=NumericProxy)
-    if not math.isnan(starting_loc) and not math.isinf(starting_loc):
+    if not isinstance(starting_loc, float):
+        starting_loc = round_number(starting_loc)
+    elif not math.isnan(starting_loc) and not math.isinf(starting_loc):
         starting_loc = float(round_number(starting_loc))
 
     if len(self) == 2:
@@ -695,7 +702,9 @@ def select__subsequence(self: XPathFunction, context: ta.ContextType = None) \
                 yield result
     else:
         length = self.get_argument(context, 2, required=True, cls=NumericProxy)
-        if not math.isnan(length) and not math.isinf(length):
+        if not isinstance(length, float):
+            length = round_number(length)
+        elif not math.isnan(length) and not math.isinf(length):
             length = float(round_number(length))
 
         for pos, result in enumerate(self[0].select(context), start=1):
